@@ -18,6 +18,9 @@ RevS(s) == [i \in 1..Len(s) |-> s[Len(s) + 1 - i]]
 \* e: [rel, base, after, map, mult, n]
 JudgeGroups(e) ==
   IF e.exc # "none" THEN "no-exception"
+  \* (the counts first: they are cheap, and a badly wrong answer can be thousands of groups long)
+  ELSE IF e.rel \in {"same", "perm"} /\ Len(e.after) # Len(e.base) THEN (IF e.rel = "same" THEN "groups-unchanged-under-" \o e.what ELSE "groups-follow-the-renaming")
+  ELSE IF e.rel \notin {"same", "perm"} /\ Len(e.after) # e.mult * Len(e.base) THEN "supercell-count-is-a-times-b-times-c"
   ELSE IF ~NoDup(e.after) THEN "group-reported-twice"
   ELSE IF e.rel = "same" THEN
        (IF Groups(e.after) = Groups(e.base) THEN "ok" ELSE "groups-unchanged-under-" \o e.what)
